@@ -152,6 +152,9 @@ def _worker(d, task, extra):
         if s not in _tabs:
             _tabs[s] = zwgen.by_size(s - 1) if s > 1 else {}
         progs = itertools.islice(zwgen.iter_size(s, _tabs[s]), k, None, m)
+    elif kind == "guard":
+        _, smax, depth, k, m = task
+        progs = itertools.islice(zwgen.guarded(guard_bodies(smax), depth), k, None, m)
     else:
         _, depth, k, m = task
         progs = itertools.islice(zwgen.spine(depth), k, None, m)
@@ -181,6 +184,19 @@ def _worker(d, task, extra):
         for (name, t), cl in zip(*pending):
             account(name, t, d.recv(len(cl)))
     return out
+
+
+def guard_bodies(smax):
+    """Bodies for the guarded family: smax = 3 means everything up to 3 nodes; 2.5 means up to 2 nodes plus the
+    3-node programs whose root is a binary constructor (ALT, OR, comparison, format with two splices)."""
+    full = int(smax)
+    if ("g", smax) not in _tabs:
+        tab = zwgen.by_size(full)
+        progs = [p for s in range(1, full + 1) for p in tab[s]]
+        if smax != full:
+            progs += list(zwgen.iter_size(full + 1, tab, unary={}, ternary={}))
+        _tabs[("g", smax)] = progs
+    return _tabs[("g", smax)]
 
 
 def replay(case):
@@ -218,11 +234,15 @@ def main(ctx):
 
     # sanitized engine: everything up to 4 nodes and the depth-3 spine, all streams;
     # thorough adds 5 nodes and the depth-4 spine on the plain (-O2, asserts and hook on) engine
-    parts = [("san", extra, size_tasks(range(1, 5)) + [("spine", 3, k, 64) for k in range(64)])]
+    # guarded family: a guard that rejects some inputs outright in front of every small program, inside every context
+    gsize = 3 if thorough else 2.5
+    parts = [("san", extra, size_tasks(range(1, 5)) + [("spine", 3, k, 64) for k in range(64)]
+              + [("guard", gsize, 1, k, 128) for k in range(128)])]
     if thorough:
         fast = ctx.build(["zwdrv"], "fast")["zwdrv"]
         extra2 = {"codes": codes, "streams": streams("quick"), "deep": True}
-        parts.append(("fast", extra2, size_tasks([5]) + [("spine", 4, k, 1024) for k in range(1024)]))
+        parts.append(("fast", extra2, size_tasks([5]) + [("spine", 4, k, 1024) for k in range(1024)]
+                      + [("guard", 2, 2, k, 512) for k in range(512)]))
     sigs = {}
     for variant, ex, tl in parts:
         binary = bins["zwdrv"] if variant == "san" else fast
@@ -247,9 +267,11 @@ def main(ctx):
         "distinct_nontrivial": nprog,
         "distinct_outcomes": len(sigs),
         "rule": "state = (program, input stack or stream) executed to exhaustion on the engine; transition = one zw_result_next; "
-                "programs are all Z_3 transformers up to %d nodes plus every constructor chain of depth %d; distinct = distinct program text; "
+                "programs are all Z_3 transformers up to %d nodes plus every constructor chain of depth %d plus the guarded family "
+                "(a guard rejecting some inputs, then every program of the body bound, inside every one-hole context); distinct = distinct program text; "
                 "distinct_outcomes = distinct vectors of result counts per input" % (smax, sdepth),
-        "bounds": {"max_nodes": smax, "programs_per_size": counts, "spine_depth": sdepth, "inputs": "all [v]" + (", all [w v]" if deep else ""),
+        "bounds": {"max_nodes": smax, "programs_per_size": counts, "spine_depth": sdepth, "guarded_family": {"body_nodes": gsize, "context_depth": 1, "guards": ["?z", "!z"],
+                   "also_on_fast_engine": {"body_nodes": 2, "context_depth": 2} if thorough else None}, "inputs": "all [v]" + (", all [w v]" if deep else ""),
                    "streams": extra["streams"], "streams_for_5_nodes_and_depth_4": streams("quick") if thorough else None},
     }
     return ctx.finish("model_checking", cov, [
